@@ -270,10 +270,11 @@ CLAIMED = {
              "never become markup); for EVERY value, the quoted AND the unquoted form Ser writes is read back as "
              "exactly that value; a START TAG written under ANY option set (quoting mode, best-quote choice, minimised "
              "booleans, trailing solidus) is read back as exactly that start tag (names ASCII-lower-cased, the first "
-             "of coinciding attribute names wins, self-closing iff the solidus was written), end tags likewise; and "
-             "the lift to WHOLE STREAMS of text, whitespace, start/empty and end tags without raw-text elements: if "
-             "Ser accepts the stream, S_tok reads its output back token by token. PARTIAL: comments, doctypes, "
-             "raw-text elements and entity tokens are decided by re-tokenizing the real output with S_tok "
+             "of coinciding attribute names wins, self-closing iff the solidus was written), end tags likewise; a "
+             "COMMENT is read back exactly when Ser reports no error for it, a DOCTYPE in all four shapes; and the "
+             "lift to WHOLE STREAMS of doctype, comments, text, whitespace, start/empty and end tags without raw-text "
+             "elements: if Ser accepts the stream (for comments: with an empty error list), S_tok reads its output "
+             "back token by token. PARTIAL: raw-text elements and entity tokens are decided by re-tokenizing the real output with S_tok "
              "(extracted) for trees parsed from generated markup x options; seven listed findings.",
         design_ref="DESIGN.md 3 C08",
         note="four serializer/parser defects repaired in /repo.",
